@@ -35,6 +35,7 @@ function MK(id, isGen, ret, thr, items){
   var pos = 0;
   var fired = false;
   var o = { next: function(v){ LS("I"+id+"n"+SV(v));
+                               if (id >= 40 && pos === 1 && items.length > 1) { throw "N"+id; }
                                if (id >= 10 && pos === 1 && items.length > 1 && !fired) { fired = true; var k = Math.floor(id/10)-1; if (k > 2) k = 2;
                                  var rx; try { R(k); rx = "ok"; } catch (e) { rx = SV(e); } LS("I"+id+"x"+rx); }
                                if (pos < items.length) return {value: items[pos++], done:false};
